@@ -901,6 +901,12 @@ class _Fn:
                 return f"({src}.{f.id} (fun {v} => {body}))", "bool"
         if isinstance(f, ast.Attribute):
             recv, tr = self.expr(f.value, eff)
+            # a method with constant arguments on a value of a type for which the spec declares it as a field
+            # (`fields {(type, ".rstrip('0')"): …}`, added for harness/pygen_pxnet.py): a pure function of the receiver
+            if all(isinstance(a, ast.Constant) for a in node.args):
+                sel = "." + f.attr + "(" + ", ".join(ast.unparse(a) for a in node.args) + ")"
+                if (tr, sel) in self.spec.fields:
+                    return self._field(node, recv, tr, sel)
             if set_elem_type(tr) is not None and f.attr == "intersection" and len(node.args) == 1:
                 a, ta = self.expr(node.args[0], eff)
                 if set_elem_type(tr) not in (elem_type(ta), set_elem_type(ta)):
